@@ -213,3 +213,6 @@ for _p in ("C11", "C02", "C10", "C05"):
 ENGINES["calls"] = "constructor calls (GenericCallAdapter) vs Model/CallAssign.lean: categories and keyword list after the approved changes; disabled re-run; kept-text oracle"
 PROPS["C11"]["level_text"] += (" Constructor calls (Props/C11c.lean on Model/CallAssign): call_matched_by_key, call_equal_kept, call_kept_keyword_text, call_fix_repairs, "
                                "call_unmanaged_untouched, call_cats_flags_indep, call_nothing_approved.")
+
+PROPS["C19"]["engines"] = [("session_plain", {"quick": 48, "thorough": 1500}), ("session", {"quick": 64, "thorough": 1500})]
+ENGINES["session_plain"] = "the session engine restricted to plain category flags: every case runs Example.run_inline, Example.run_pytest and a real session and compares files and pending categories"
